@@ -612,6 +612,149 @@ class Factor(_Settings, CartesianProductStrategy):
 
 
 # --------------------------------------------------------------------------
+# Shuffle: a strategy with its own constructor and a multi-valued backward map
+# --------------------------------------------------------------------------
+def _binom(n, k):
+    from math import comb
+
+    return comb(n, k)
+
+
+def _shuffles(u: str, v: str):
+    if not u or not v:
+        yield u + v
+        return
+    for w in _shuffles(u[1:], v):
+        yield u[0] + w
+    for w in _shuffles(u, v[1:]):
+        yield v[0] + w
+
+
+def _make_shuffle_product():
+    from comb_spec_searcher.strategies.constructor import CartesianProduct
+
+    class ShuffleProduct(CartesianProduct):
+        """Pairs (u, v) counted with the number of their interleavings."""
+
+        def get_equation(self, lhs_func, rhs_funcs):
+            raise NotImplementedError("the shuffle product has no equation for ordinary generating functions")
+
+        def get_terms(self, parent_terms, subterms, n):
+            from collections import Counter as _Counter
+
+            new_terms = _Counter()
+            for k in range(n + 1):
+                for (p1, v1), (p2, v2) in product(subterms[0](k).items(), subterms[1](n - k).items()):
+                    new_terms[self._new_param(p1, p2)] += v1 * v2 * _binom(n, k)
+            return new_terms
+
+        def random_sample_sub_objects(self, parent_count, subsamplers, subrecs, n, **parameters):
+            import random as _random
+
+            random_choice = _random.randint(1, parent_count)
+            total = 0
+            for child_parameters in self._valid_compositions(n, **parameters):
+                extra_parameters = self.get_extra_parameters(child_parameters)
+                if extra_parameters is None:
+                    continue
+                tmp = _binom(n, extra_parameters[0]["n"])
+                for rec, extra_params in zip(subrecs, extra_parameters):
+                    tmp *= rec(**extra_params)
+                total += tmp
+                if random_choice <= total:
+                    return tuple(
+                        subsampler(**extra_params) for subsampler, extra_params in zip(subsamplers, extra_parameters)
+                    )
+            raise RuntimeError("Function did not return")
+
+        def __str__(self):
+            return "Shuffle product"
+
+    return ShuffleProduct
+
+
+_SHUFFLE_PRODUCT = []
+
+
+class Shuffle(_Settings, CartesianProductStrategy):
+    """A pattern-free class with empty prefix over S1 | S2 is the shuffle of the
+    pattern-free classes over S1 and over S2: a word is determined by its two
+    projections and the positions of the letters of S1.  The constructor is the
+    strategy's own; backward_map yields every interleaving."""
+
+    SETTINGS = ("cut", "swap", "xf_left", "xf_right")
+
+    def __init__(self, cut=0, swap=False, xf_left="id", xf_right="id", **kw):
+        self.cut = int(cut)
+        self.swap = bool(swap)
+        self.xf_left = xf_left
+        self.xf_right = xf_right
+        super().__init__(**kw)
+
+    def can_be_equivalent(self) -> bool:
+        return False
+
+    def is_two_way(self, comb_class) -> bool:
+        return False
+
+    def is_reversible(self, comb_class) -> bool:
+        return False
+
+    def _parts(self, c: WC):
+        if c.just_prefix or c.strict or c.prefix or c.patterns or len(c.alphabet) < 2:
+            return None
+        cut = 1 + self.cut % (len(c.alphabet) - 1)
+        return c.alphabet[:cut], c.alphabet[cut:]
+
+    def _children_and_maps(self, c: WC):
+        parts = self._parts(c)
+        if parts is None:
+            return None
+        left = transform(c.derive(alphabet=parts[0]), FLAGSETS[self.xf_left])
+        right = transform(c.derive(alphabet=parts[1]), FLAGSETS[self.xf_right])
+        return [right, left] if self.swap else [left, right]
+
+    def decomposition_function(self, c: WC):
+        cm = self._children_and_maps(c)
+        return None if cm is None else tuple(ch for ch, _ in cm)
+
+    def extra_parameters(self, comb_class, children=None):
+        cm = self._children_and_maps(comb_class)
+        if cm is None:
+            raise StrategyDoesNotApply("Strategy does not apply")
+        return tuple(m for _, m in cm)
+
+    def constructor(self, comb_class, children=None):
+        if children is None:
+            children = self.decomposition_function(comb_class)
+            if children is None:
+                raise StrategyDoesNotApply("Strategy does not apply")
+        if not _SHUFFLE_PRODUCT:
+            _SHUFFLE_PRODUCT.append(_make_shuffle_product())
+        return _SHUFFLE_PRODUCT[0](comb_class, children, extra_parameters=self.extra_parameters(comb_class, children))
+
+    def reverse_constructor(self, idx, comb_class, children=None):
+        raise NotImplementedError("a shuffle cannot be undone")
+
+    def formal_step(self) -> str:
+        return f"shuffle of the letters before and after the cut {self.cut}" + (" (swapped)" if self.swap else "")
+
+    def forward_map(self, comb_class, obj, children=None):
+        s1 = self._parts(comb_class)[0]
+        u = W("".join(l for l in obj if l in s1))
+        v = W("".join(l for l in obj if l not in s1))
+        return (v, u) if self.swap else (u, v)
+
+    def backward_map(self, comb_class, objs, children=None):
+        u, v = (objs[1], objs[0]) if self.swap else (objs[0], objs[1])
+        for w in _shuffles(str(u), str(v)):
+            yield W(w)
+
+    def __str__(self):
+        return self.formal_step()
+
+
+# --------------------------------------------------------------------------
 # unary equivalences
 # --------------------------------------------------------------------------
 class _Unary(_Settings, DisjointUnionStrategy):
@@ -1067,6 +1210,7 @@ STRATEGY_CLASSES = {
     "SplitAtom": SplitAtom,
     "Peel": Peel,
     "Factor": Factor,
+    "Shuffle": Shuffle,
     "Reduce": Reduce,
     "StatXf": StatXf,
     "StatPerm": StatPerm,
@@ -1102,5 +1246,11 @@ def build_pack(desc) -> StrategyPack:
 
 
 def build_class(desc, compressed=False) -> WC:
-    cls = {0: WC, 1: WCB, 2: WCM, 3: WCH}[int(compressed)]
+    mode = int(compressed)
+    if mode in (4, 5):
+        from vf.universe import twin  # same class names, another module
+
+        cls = {4: twin.WC, 5: twin.WCB}[mode]
+    else:
+        cls = {0: WC, 1: WCB, 2: WCM, 3: WCH}[mode]
     return cls.from_key(desc)
